@@ -45,6 +45,7 @@ From ASModel Require Import ProtDefs Prot1 Prot11 Prot16 Prot Typed LinDefs Lin2
 From ASModel Require Import Stale StaleInv.
 From ASModel Require Import Stale2 Stale2Inv.
 From ASModel Require Import StaleC StaleCInv.
+From ASModel Require Import Stale2S.
 
 Theorem C01_dec : forall s a,
   match heap s a with
@@ -234,3 +235,21 @@ Theorem C01_no_use_after_free_stale3 : forall cf inits progs sched,
 Proof. exact StaleCInv28.C16_no_fault_stale3. Qed.
 
 Print Assumptions C01_no_use_after_free_stale3.
+
+(** ** Static hypotheses for runs with stale loads: [RunStaticS2] asks for well-formed program text
+    ([progs_wf], decidable), a schedule of fewer than 2^62 steps, and - the only conditions on the
+    run - that the allocator hands out free addresses and that the stale values are permitted ones
+    ([alloc_ok], [stale2_ok]: conditions on the scheduler's choices, not on the program). *)
+Theorem C01_no_use_after_free_stale2_static cf inits progs sched :
+  RunStaticS2 cf inits progs sched ->
+  NoFault (run_state_stale2 cf (init_state inits progs) sched) /\
+  forall te, In te (snd (run_stale2 cf (init_state inits progs) sched)) ->
+    forall a, ~ In (EvFault (FDeadInc a)) (snd te) /\ ~ In (EvFault (FDeadDec a)) (snd te).
+Proof. exact (Stale2S4.C01_no_use_after_free_stale2_static cf inits progs sched). Qed.
+
+Theorem C01_static_scope_generalises cf inits progs sched :
+  fresh_sched sched -> RunStatic cf inits progs sched -> RunStaticS2 cf inits progs sched.
+Proof. exact (RunStatic_RunStaticS2 cf inits progs sched). Qed.
+
+Print Assumptions C01_no_use_after_free_stale2_static.
+Print Assumptions C01_static_scope_generalises.
